@@ -359,6 +359,21 @@ func (e *Enc) wfValue(term string, t types.Type, guard string) {
 	}
 }
 
+// constArray: an Int-indexed array that is `zero` everywhere. cvc5 accepts
+// (as const ...) only for values, so non-literal zeros get an axiomatised constant.
+func (e *Enc) constArray(elemSort, zero string) string {
+	switch zero {
+	case "false", "true", "0", "0.0":
+		return fmt.Sprintf("((as const (Array Int %s)) %s)", elemSort, zero)
+	}
+	name := q("zarr." + strings.Trim(elemSort, "|"))
+	if _, ok := e.decls[name]; !ok {
+		e.declare(name, "(Array Int "+elemSort+")")
+		e.assume(fmt.Sprintf("(forall ((i Int)) (! (= (select %s i) %s) :pattern ((select %s i))))", name, zero, name))
+	}
+	return name
+}
+
 func (e *Enc) newRef(name string) string {
 	r := e.declare(name, "Ref")
 	a := e.H(heapAlloc)
@@ -411,7 +426,7 @@ func (e *Enc) siteLabel() string {
 func (e *Enc) frameWrite(ref string, what string) {
 	if ref == "" {
 		if e.fv.hasModSpec() {
-			e.oblige("frame", fmt.Sprintf("frame/%s@%s", what, e.siteLabel()), "false", []string{"C13"}, "write to package-level variable")
+			e.oblige("frame", fmt.Sprintf("frame/%s@%s", what, e.siteLabel()), "false", e.fv.modTags(), "write to package-level variable")
 		}
 		return
 	}
@@ -444,7 +459,7 @@ func (e *Enc) instr(in ssa.Instruction) {
 			}
 		case *types.Array:
 			h := w.heapArr(u.Elem())
-			e.setHeap(h, fmt.Sprintf("(store %s %s ((as const (Array Int %s)) %s))", e.H(h), r, w.sortOf(u.Elem()), w.zero(u.Elem())))
+			e.setHeap(h, fmt.Sprintf("(store %s %s %s)", e.H(h), r, e.constArray(w.sortOf(u.Elem()), w.zero(u.Elem()))))
 		default:
 			h := w.heapCell(et)
 			e.setHeap(h, fmt.Sprintf("(store %s %s %s)", e.H(h), r, w.zero(et)))
@@ -475,6 +490,11 @@ func (e *Enc) instr(in ssa.Instruction) {
 			}
 			e.defVal(x, e.load(p))
 			e.wfValue(e.val(x), x.Type(), "")
+			if g, ok := x.X.(*ssa.Global); ok && e.w.initNonNil[g] {
+				if e.w.sortOf(x.Type()) == "Ref" {
+					e.assume(fmt.Sprintf("(not (= %s nil))", e.val(x)))
+				}
+			}
 		case token.NOT:
 			e.defVal(x, fmt.Sprintf("(not %s)", e.val(x.X)))
 		case token.SUB:
@@ -558,7 +578,7 @@ func (e *Enc) instr(in ssa.Instruction) {
 		st := x.Type().Underlying().(*types.Slice)
 		r := e.newRef(q("arr." + x.Name()))
 		h := w.heapArr(st.Elem())
-		e.setHeap(h, fmt.Sprintf("(store %s %s ((as const (Array Int %s)) %s))", e.H(h), r, w.sortOf(st.Elem()), w.zero(st.Elem())))
+		e.setHeap(h, fmt.Sprintf("(store %s %s %s)", e.H(h), r, e.constArray(w.sortOf(st.Elem()), w.zero(st.Elem()))))
 		e.safety("makeslice-len", fmt.Sprintf("(>= %s 0)", e.val(x.Len)))
 		e.defVal(x, fmt.Sprintf("(mk_slice %s 0 %s)", r, e.val(x.Len)))
 	case *ssa.MakeClosure:
